@@ -59,21 +59,58 @@ theorem idxOf_getD_of_isPerm (h : isPerm perm n = true) {k : Nat} (hk : k < n) :
 
 /-! ### `argsort` -/
 
+theorem insertByKey_perm (x : Nat × Nat) (l : List (Nat × Nat)) :
+    (insertByKey x l).Perm (x :: l) := by
+  induction l with
+  | nil => simp [insertByKey]
+  | cons y ys ih =>
+    unfold insertByKey
+    split
+    · exact List.Perm.refl _
+    · exact (List.Perm.cons y ih).trans (List.Perm.swap x y ys)
+
+theorem sortByKey_perm (l : List (Nat × Nat)) : (sortByKey l).Perm l := by
+  induction l with
+  | nil => simp [sortByKey]
+  | cons x xs ih => exact (insertByKey_perm x _).trans (List.Perm.cons x ih)
+
+theorem insertByKey_pairwise (x : Nat × Nat) {l : List (Nat × Nat)}
+    (h : l.Pairwise (fun a b => a.1 ≤ b.1)) :
+    (insertByKey x l).Pairwise (fun a b => a.1 ≤ b.1) := by
+  induction l with
+  | nil => simp [insertByKey]
+  | cons y ys ih =>
+    rw [List.pairwise_cons] at h
+    unfold insertByKey
+    split
+    · rename_i hxy
+      rw [List.pairwise_cons]
+      refine ⟨?_, List.pairwise_cons.2 h⟩
+      intro z hz
+      rcases List.mem_cons.1 hz with rfl | hz
+      · exact hxy
+      · exact Nat.le_trans hxy (h.1 z hz)
+    · rename_i hxy
+      rw [List.pairwise_cons]
+      refine ⟨?_, ih h.2⟩
+      intro z hz
+      rcases List.mem_cons.1 ((insertByKey_perm x ys).mem_iff.1 hz) with rfl | hz
+      · omega
+      · exact h.1 z hz
+
+theorem sortByKey_pairwise (l : List (Nat × Nat)) :
+    (sortByKey l).Pairwise (fun a b => a.1 ≤ b.1) := by
+  induction l with
+  | nil => simp [sortByKey]
+  | cons x xs ih => exact insertByKey_pairwise x ih
+
 /-- `np.argsort` of a permutation of `range n` is its inverse permutation. -/
 theorem argsort_eq_of_isPerm (h : isPerm perm n = true) :
     argsort perm = (List.range n).map (fun a => perm.idxOf a) := by
   unfold argsort
-  generalize hs : perm.zipIdx.mergeSort (fun a b => decide (a.1 ≤ b.1)) = s
-  have hperm : s.Perm perm.zipIdx := hs ▸ List.mergeSort_perm _ _
-  have hsorted : s.Pairwise (fun a b => a.1 ≤ b.1) := by
-    have := List.pairwise_mergeSort (le := fun a b : Nat × Nat => decide (a.1 ≤ b.1))
-      (fun a b c hab hbc => by
-        simp only [decide_eq_true_eq] at *; exact Nat.le_trans hab hbc)
-      (fun a b => by
-        simp only [Bool.or_eq_true, decide_eq_true_eq]; exact Nat.le_total a.1 b.1)
-      perm.zipIdx
-    rw [hs] at this
-    simpa using this
+  generalize hs : sortByKey perm.zipIdx = s
+  have hperm : s.Perm perm.zipIdx := hs ▸ sortByKey_perm _
+  have hsorted : s.Pairwise (fun a b => a.1 ≤ b.1) := hs ▸ sortByKey_pairwise _
   -- the sorted keys are `range n`
   have hfst : s.map Prod.fst = List.range n := by
     have hp : (s.map Prod.fst).Perm (List.range n) := by
